@@ -36,7 +36,64 @@ def _pieces(node: ast.expr) -> list[ast.expr] | None:
             return list(node.args[0].elts)
         return None
     if isinstance(node, ast.Call) and isinstance(node.func, ast.Attribute) and node.func.attr == "format":
-        return None
+        t = node.func.value
+        if not (isinstance(t, ast.Constant) and isinstance(t.value, str)) or node.keywords or any(isinstance(a, ast.Starred) for a in node.args):
+            return None
+        import string
+
+        out: list[ast.expr] = []
+        k = 0
+        try:
+            fields = list(string.Formatter().parse(t.value))
+        except ValueError:
+            return None
+        for lit, field, spec, conv in fields:
+            if lit:
+                out.append(ast.Constant(lit))
+            if field is None:
+                continue
+            if field == "":
+                idx = k
+                k += 1
+            elif field.isdigit():
+                idx = int(field)
+            else:
+                return None
+            if idx >= len(node.args):
+                return None
+            arg = node.args[idx]
+            if spec and "." in spec:
+                arg = ast.Subscript(value=arg, slice=ast.Slice(), ctx=ast.Load())  # a precision cuts the text
+            out.append(arg)
+        return out
+    if isinstance(node, ast.BinOp) and isinstance(node.op, ast.Mod) and isinstance(node.left, ast.Constant) and isinstance(node.left.value, str):
+        import re
+
+        args = list(node.right.elts) if isinstance(node.right, ast.Tuple) else [node.right]
+        if any(isinstance(a, ast.Starred) for a in args):
+            return None
+        out = []
+        pos = 0
+        k = 0
+        for mt in re.finditer(r"%(\([^)]*\))?[-#0 +]*(\*|\d+)?(\.(\*|\d+))?([diouxXeEfFgGcrsa%])", node.left.value):
+            if mt.start() > pos:
+                out.append(ast.Constant(node.left.value[pos : mt.start()]))
+            pos = mt.end()
+            if mt.group(5) == "%":
+                out.append(ast.Constant("%"))
+                continue
+            if mt.group(1) or mt.group(2) == "*" or mt.group(4) == "*" or k >= len(args):
+                return None
+            arg = args[k]
+            k += 1
+            if mt.group(3) and mt.group(5) in "sra":
+                arg = ast.Subscript(value=arg, slice=ast.Slice(), ctx=ast.Load())
+            out.append(arg)
+        if pos < len(node.left.value):
+            out.append(ast.Constant(node.left.value[pos:]))
+        if k != len(args):
+            return None
+        return out
     if isinstance(node, (ast.Constant, ast.Name, ast.Attribute, ast.Call, ast.FormattedValue)):
         return [node]
     return None
@@ -134,6 +191,22 @@ def check(model, tier):
                     inst,
                     f"the name is read back from shared engine state (`{src(v)[:60]}`) instead of being the value this call built: a request served by another "
                     "thread between the write and the read makes both calls return the same string",
+                    fi=f,
+                    node=p.node,
+                    details=describe(p),
+                )
+                continue
+            # text the caller supplied must never be *interpreted*: an f-string that already contains the prefix and is
+            # then used as a %-/format() template gives `%`/`{` in the prefix a meaning
+            tmpl = v.left if isinstance(v, ast.BinOp) and isinstance(v.op, ast.Mod) else v.func.value if isinstance(v, ast.Call) and isinstance(v.func, ast.Attribute) and v.func.attr in ("format", "format_map") else None
+            if isinstance(tmpl, ast.Name) and isinstance(env_at(p).get(tmpl.id), ast.expr):
+                tmpl = env_at(p)[tmpl.id]
+            if tmpl is not None and not isinstance(tmpl, ast.Constant) and any(isinstance(n, ast.Name) and n.id == prefix for n in ast.walk(tmpl)):
+                run.fail(
+                    "R19.1",
+                    inst,
+                    f"the requested prefix is pasted into a template that is formatted afterwards (`{src(v)[:80]}`): a prefix containing a format "
+                    "directive (`%`, `{`) raises or is rewritten instead of being the beginning of the name",
                     fi=f,
                     node=p.node,
                     details=describe(p),
